@@ -163,6 +163,9 @@ pub struct SCase {
     /// build the termination model from a JSON configuration through the application's
     /// `TerminationModelBuilder` (runtime limits must then be whole seconds)
     pub term_via_builder: bool,
+    /// (with `svc`) the weights carry a name the state model does not have: dropped silently when
+    /// ignore_unknown_weights is set, otherwise the service must refuse to build
+    pub svc_unknown_weight: bool,
 }
 
 pub struct Built {
@@ -364,8 +367,9 @@ pub fn build(c: &SCase) -> Result<Built, String> {
             let qv = qv && vr_json.is_some();
             let mut weights_cfg = weights.clone();
             let mut weights_q = weights.clone();
-            if ignore_unknown {
-                // a weight for a feature the state model does not have is dropped silently
+            if c.svc_unknown_weight {
+                // a weight for a feature the state model does not have: dropped silently when
+                // ignore_unknown_weights is set, refused otherwise
                 weights_cfg.insert("no_such_feature".into(), 3.0);
                 weights_q.insert("no_such_feature".into(), 3.0);
             }
@@ -1290,6 +1294,7 @@ pub fn gen_case_on(rng: &mut Rng, opts: &GenOpts, coords: Vec<(f32, f32)>, edges
         query_wf,
         svc: if rng.chance(1, 2) { Some((rng.chance(1, 2), rng.chance(1, 2), rng.chance(1, 2), rng.chance(1, 3))) } else { None },
         term_via_builder: false,
+        svc_unknown_weight: rng.chance(1, 4),
     }
 }
 
